@@ -73,6 +73,8 @@ def _is_self_attr(node, names):
 
 # kinds the pattern is expected to find per pool function; when a function no longer shows them (a
 # refactor moved the shared accesses), every line of that function becomes a preemption point instead
+# HTTPResponse.release_conn reaches the shared queue through _put_conn: each of its lines is a preemption point
+ALWAYS_DENSE = ("release_conn",)
 EXPECT_CLASS = "HTTPConnectionPool"
 EXPECT = {"_get_conn": {"test", "load"}, "_put_conn": {"load"}, "close": {"test", "swap"}}
 
@@ -170,7 +172,7 @@ def instrument(modules, dense=False, dense_funcs=("_get_conn", "_put_conn", "clo
         _POINTS.clear()
         del _FALLBACK[:]
         for i, mod in enumerate(modules):
-            _POINTS.update(select_points(mod, dense_funcs=dense_funcs if dense else (), expect=EXPECT if i == 0 else None,
+            _POINTS.update(select_points(mod, dense_funcs=dense_funcs if dense else ALWAYS_DENSE, expect=EXPECT if i == 0 else None,
                                          fallback=_FALLBACK))
         found = {name for name, _, _ in _POINTS.values()}
         missing = [f for f in EXPECT if f not in found]
